@@ -132,6 +132,7 @@ Seek(o) ==          \* fd_seek(fd, o.off, whence o.n: 0 set, 1 cur, 2 end); fd_t
   IF ~IsOpen(o.fd) THEN Same(o, {"EBADF"}, <<>>)
   ELSE LET e == fds[o.fd] IN
        IF e.ino = -1 THEN Same(o, {"skip"}, <<>>)
+       ELSE IF o.n > 2 THEN Same(o, {"EINVAL"}, <<>>)       \* whence is one of three values, whatever its low bits say
        ELSE LET base == IF o.n = 0 THEN 0 ELSE IF o.n = 1 THEN e.off ELSE Len(inodes[e.ino])
                 new == base + o.off IN
             IF new < 0 THEN Same(o, {"EINVAL"}, <<>>)
